@@ -157,6 +157,25 @@ def roundtrip_rule(R, lib, consts):
                     back2 = call(f_restore, [d], recv=other, intr=intr)
                     if not (isinstance(back2, AObj) and call(f_err, [], recv=back2)):
                         note('R1', c1 + ':missing', f_restore.loc, '[%s] the zone with id %d restored by a manager whose registry does not hold it is not the error zone' % (tag, zid))
+            # ---- a registry longer than an 8-bit index can address: entries beyond 255, and an id it does not hold
+            big, breg = manager(list(range(0, 2 * 300, 2)))
+            for i in (0, 255, 256, 257, 299):
+                zid = breg[i].attrs['zoneId']
+                count('R1', c1 + ':long-registry', f_restore.loc)
+                tz = call(f_by_ix, [i], recv=big, intr=intr)
+                d = call(f_save, [], recv=tz, intr=intr)
+                back = call(f_restore, [d], recv=big, intr=intr)
+                if not (isinstance(back, AObj) and eq(back, tz, intr) and call(f_id, [], recv=back, intr=intr) == zid):
+                    note('R1', c1 + ':long-registry', f_restore.loc, '[%s] registry of 300 zones: the zone at index %d (id %d) is saved and restored as %s' % (
+                        tag, i, zid, 'the error zone' if isinstance(back, AObj) and call(f_err, [], recv=back) else
+                        'the zone with id %r' % (call(f_id, [], recv=back, intr=intr) if isinstance(back, AObj) else None)))
+            count('R1', c1 + ':long-registry', f_restore.loc)
+            tz = call(f_by_ix, [1], recv=other, intr=intr)          # a zone of the other registry: its id (5000 + 7 * 3) is not in the long one
+            d = call(f_save, [], recv=tz, intr=intr)
+            back = call(f_restore, [d], recv=big, intr=intr)
+            if not (isinstance(back, AObj) and call(f_err, [], recv=back)):
+                note('R1', c1 + ':long-registry', f_restore.loc, '[%s] registry of 300 zones: an id it does not hold restores to the zone with id %r instead of the error zone' % (
+                    tag, call(f_id, [], recv=back, intr=intr) if isinstance(back, AObj) else None))
             # ---- an unknown type byte
             count('R1', c1 + ':unknown-type', f_restore.loc)
             d = cxx_object(lib, TZD)
